@@ -399,7 +399,7 @@ def run_check(ctx, rp, corrupt=None):
                     found.setdefault(dv["signature"], []).append(dv)
             histories += len(behs)
             nontrivial += sum(1 for b in behs if any(s["c"] and s["s"] for s in b["h"]))
-            for b in behs[:: max(1, len(behs) // 2)][:2]:
+            for b in (behs[len(behs) // 3:][:1] if not sim else behs[:2]):
                 ctx.sample(dict(cfg=cfg, history=[describe(s) + " -> " + ans(s) for s in b["h"]], final=rows(b["f"]),
                                 final_open=b["fo"]))
     merge_inverted(found)
